@@ -2,7 +2,7 @@
 
 E-enum: component {VEVENT, VTODO} x start {absent, date, floating, UTC, zoned 12h before a DST change, zoned, dateutil-zoned, fixed offset} x end
 {absent, DTEND|DUE, DURATION in days, DURATION with a time part, zero DURATION} x alarm lists of length <= 2 over the product
-TRIGGER (8) x RELATED (3) x (REPEAT, DURATION) (8, incl. a zero DURATION), each built through the API and again parsed from its own
+TRIGGER (8) x RELATED (5, incl. lower / mixed case) x (REPEAT, DURATION) (8, incl. a zero DURATION), each built through the API and again parsed from its own
 serialisation, under both providers.  Oracle: refmodel/alarms.py; per alarm the sequence of trigger times, and overall
 their multiset, equal the model's; Alarm.triggers agrees; missing/invalid information is reported only by the
 documented error classes, and only where information is really missing or invalid.
@@ -21,7 +21,7 @@ UTC = timezone.utc
 STARTS = ("absent", "date", "floating", "utc", "zoned-dst", "zoned", "zoned-dateutil", "fixed-offset")
 ENDS = ("absent", "explicit", "dur-days", "dur-time", "dur-zero")
 TRIGGERS = ("absent", "PT0S", "-PT15M", "PT5H", "-P1D", "P1D", "abs-utc", "abs-zoned")
-RELATED = (None, "START", "END")
+RELATED = (None, "START", "END", "end", "Start")  # unquoted parameter values are case-insensitive
 REPDUR = ((None, None), (0, "PT5M"), (2, "PT5M"), (2, None), (None, "PT5M"), (1, "P1D"), (3, "PT24H"), (2, "PT0S"))
 TD = {"PT0S": timedelta(0), "-PT15M": timedelta(minutes=-15), "PT5H": timedelta(hours=5), "-P1D": timedelta(days=-1),
       "P1D": timedelta(days=1), "PT5M": timedelta(minutes=5), "PT24H": timedelta(hours=24)}
@@ -171,7 +171,7 @@ def run_case(case):
                 if s["duration"] is not None:
                     seq += [tv + s["duration"] * k for k in range(1, (s["repeat"] or 0) + 1)]
             if isinstance(tv, timedelta):
-                key = "end" if s["related"] == "END" else "start"
+                key = "end" if (s["related"] or "").upper() == "END" else "start"
             else:
                 key = "absolute"
             got = {"start": tuple(trg.start), "end": tuple(trg.end), "absolute": tuple(trg.absolute)}
@@ -191,7 +191,7 @@ REDUCED = [(t, r, rd) for t in ("-PT15M", "PT5H", "-P1D", "abs-utc") for r in (N
 
 
 def run(ctx):
-    ctx.rule = ("E-enum: {VEVENT,VTODO} x 8 start kinds x 5 end kinds (incl. a zero DURATION) x all single alarms TRIGGER(8) x RELATED(3) x "
+    ctx.rule = ("E-enum: {VEVENT,VTODO} x 8 start kinds x 5 end kinds (incl. a zero DURATION) x all single alarms TRIGGER(8) x RELATED(5) x "
                 "(REPEAT,DURATION)(8, incl. a zero DURATION) x {API-built, parsed} x {zoneinfo, pytz}; plus all ordered pairs over a reduced menu of "
                 f"{len(REDUCED)} alarm shapes" + ("" if ctx.quick else " and all triples over 8 shapes") +
                 ". non-trivial = at least one alarm has a TRIGGER.")
